@@ -4,7 +4,8 @@ import json, sys
 pid = sys.argv[1]; tag = sys.argv[2] if len(sys.argv) > 2 else pid
 hint = sys.argv[3] if len(sys.argv) > 3 else ""
 p = [json.loads(l) for l in open('/verif/properties.jsonl') if json.loads(l)['id'] == pid][0]
-wt = "/tmp/mut/%s" % tag
+import os
+wt = "/tmp/mut/%s" % os.environ.get("WT", tag)
 print(f"""You are helping to measure how sensitive a verification suite is. You work ONLY inside the scratch git worktree {wt}
 (a checkout of feos: a Rust library of thermodynamic equations of state and classical DFT, with Cargo workspace members feos-core, feos-dft, feos-derive and the top-level crate `feos`).
 Do NOT read, list or touch /verif or /repo (you may only use {wt} and /tmp/mut/out/{tag}). There is no network; cargo must run with --offline.
